@@ -89,6 +89,47 @@ def burst_sync_scripts(tier):
     return out
 
 
+def stop_mid_cycle(tier):
+    """the stop request reaches the runtime while a handler of the agent is running (instruction `trigstop` fires the
+    stop trigger from inside the handler): the responses the lanes write at the end of that cycle and the stop are
+    ready at the same instant.  Whatever the runtime does with those last responses, a remote must not be shown a
+    state the store does not hold; the restart afterwards shows what was restored."""
+    out = []
+    v = [500]
+
+    def nxt():
+        v[0] += 1
+        return v[0]
+
+    def change(lane, j):
+        if lane in ("val", "val2"):
+            return {"i": "set", "lane": lane, "v": nxt()}
+        return [{"i": "upd", "lane": lane, "key": 1 + j % 2, "v": nxt()}, {"i": "rem", "lane": lane, "key": 1},
+                {"i": "clr", "lane": lane}][j % 3]
+    for lane in ("val", "val2", "map", "omap"):
+        for shape in ("c-stop", "stop-c", "c-stop-c", "c-c-stop"):
+            for slow in (False, True):
+                for j0 in (0, 1, 2) if lane in ("map", "omap") else (0,):
+                    acts = [{"k": "attach", "r": 1, "cap": 4096}, {"k": "send", "r": 1, "lane": lane, "op": "link"}]
+                    if slow:
+                        acts += [{"k": "attach", "r": 2, "cap": 16}, {"k": "send", "r": 2, "lane": lane, "op": "sync"}]
+                    acts.append({"k": "send", "r": 1, "lane": "cmd", "op": "cmd", "m": "prog", "tag": nxt(),
+                                 "prog": [{"i": "upd", "lane": lane, "key": kk, "v": nxt()} for kk in (1, 2)] if lane in ("map", "omap")
+                                 else [{"i": "set", "lane": lane, "v": nxt()}]})
+                    prog, j = [], j0
+                    for part in shape.split("-"):
+                        if part == "stop":
+                            prog.append({"i": "trigstop"})
+                        else:
+                            prog.append(change(lane, j))
+                            j += 1
+                    acts.append({"k": "send", "r": 1, "lane": "cmd", "op": "cmd", "m": "prog", "tag": nxt(), "prog": prog})
+                    acts += [{"k": "restart"}, {"k": "attach", "r": 1, "cap": 4096}, {"k": "send", "r": 1, "lane": lane, "op": "sync"},
+                             {"k": "read", "r": 1, "n": 0}]
+                    out.append(acts)
+    return out
+
+
 def run(tier, out):
     wd = core.workdir("C05")
     core.build_harness("h_runtime", "e2e")
@@ -100,6 +141,7 @@ def run(tier, out):
         batches.append(("profile %d" % pi, scripts))
     batches.append(("store histories x every cut", store_scripts(tier)))
     batches.append(("bursts of changes and syncs", burst_sync_scripts(tier)))
+    batches.append(("stop in the middle of an agent cycle", stop_mid_cycle(tier) * 2))
     restarts = 0
     for bi, (name, scripts) in enumerate(batches):
         cases, results = e2e.run_scripts(wd, scripts, {"store": True, "eager_store_read": bi != 1}, tag="run%d" % bi)
